@@ -5,6 +5,10 @@ from checks import codec_common as cc
 
 THEOREMS = ["C16_roundtrip", "C16_roundtrip_any_offset", "C16_pinned"]
 
+LEMMAS = {"C16_roundtrip": ("CodecLaws", "gob_roundtrip_lemma"),
+          "C16_roundtrip_any_offset": ("CodecLaws", "gob_roundtrip_any_offset"),
+          "C16_pinned": ("CodecPinned", "gob_pinned_lemma")}
+
 ASSUME = [
     "encoding/gob restores each value it is given (the wire is modelled as the list of typed values, one per Encode call; type mismatch or end of stream is an error); not proved, exercised by the real round trips of this run",
     "time.Time's binary form (zone offset as int16 minutes plus an unsigned byte of seconds, -1 minute reserved for UTC) is modelled by gob_off_ok/gob_off_back and compared with the real library on every generated instant",
@@ -15,7 +19,7 @@ ASSUME = [
 
 @cc.guarded
 def run(chk):
-    c = cc.CodecCheck(chk, "C16", "gob", THEOREMS)
+    c = cc.CodecCheck(chk, "C16", "gob", THEOREMS, LEMMAS)
     import time
     t0 = time.time()
     c.proofs()
@@ -43,6 +47,8 @@ def run(chk):
     chk.oblige("the property as stated in Go holds on all %d generated round trips" % len(recs), all(r["spec_ok"] for r in recs))
     placeholders = sum(1 for r in shapes if r["in"]["ref"] and r["in"]["data_nil"])
     chk.oblige("the real run produced replaced-ID records and they were round-tripped (%d)" % placeholders, placeholders > 0)
+    cc.generator_selftest(chk, cc.kind_histogram(recs), cc.REQUIRED_KINDS +
+                          ["created:z:seconds-east", "created:z:seconds-west", "created:z:minus-one-minute"], "round-trip family")
     bulk_cases, bulk_hist = 0, {}
     if thorough:
         bulk_cases, fails, bulk_hist = c.bulk("gobrt", 500000)
